@@ -205,6 +205,47 @@ def subset_history(rng):
     return None, {'spec': str(spec), 'subsets': steps, 'equal_atoms': any(kinds.count(k) > 1 for k in ('exp', 'norm', 'abs', 'pos'))}
 
 
+def oracle_separately_then_together(rng):
+    """constraints with EQUAL nonlinear atoms are each compiled in a Problem of their own first and used together afterwards; a
+    conditional dual SAGE constraint object is built into two Problems in a row; both behave like fresh copies"""
+    import sageopt.coniclifts as cl
+    from sageopt.symbolic.signomials import SigDomain
+
+    def make():
+        x = cl.Variable(shape=(2,), name='st_x')
+        c1 = cl.weighted_sum_exp(np.array([1.0]), cl.Expression([x[0] + x[1]])) <= 50        # loose
+        c2 = cl.weighted_sum_exp(np.array([1.0]), cl.Expression([x[0] + x[1]])) + x[0] <= 6    # binding
+        return x, [c1, c2, x >= -1, x <= 3]
+    with warnings.catch_warnings():
+        warnings.simplefilter('ignore')
+        x, cons = make()
+        obj = -x[0] - 2 * x[1]
+        r_a = cl.Problem(cl.MIN, obj, [cons[0]] + cons[2:]).solve(verbose=False)
+        r_b = cl.Problem(cl.MIN, obj, [cons[1]] + cons[2:]).solve(verbose=False)
+        r_ab = cl.Problem(cl.MIN, obj, cons).solve(verbose=False)
+        xf, cf = make()
+        fresh = cl.Problem(cl.MIN, -xf[0] - 2 * xf[1], cf).solve(verbose=False)
+        if r_ab[0] != fresh[0] or abs(r_ab[1] - fresh[1]) > 1e-5 * (1 + abs(fresh[1])):
+            return ('two constraints with equal exp atoms were compiled separately (values %r, %r) and then together: %r; a fresh copy of the joint '
+                    'model solves to %r' % (r_a[1], r_b[1], r_ab, fresh))
+        # conditional dual SAGE constraint, compiled twice
+        alpha = np.array([[0.0, 0.0], [1.0, 0.0], [0.0, 1.0], [1.0, 1.0]])
+        X = SigDomain(2, AbK=(np.vstack([np.eye(2), -np.eye(2)]), np.array([1.0, 1.0, 2.0, 2.0]), [cl.Cone('+', 4)]), gts=[], eqs=[], check_feas=False)
+        v = cl.Variable(shape=(4,), name='st_v')
+        con = cl.DualSageCone(v, alpha, X, 'st_dual', c=cl.Expression(np.array([1.0, 1.0, 1.0, -1.0])))
+        objv = v[1] + v[2] - v[3]
+        try:
+            first = cl.Problem(cl.MIN, objv, [con, v[0] == 1]).solve(verbose=False)
+            second = cl.Problem(cl.MIN, objv, [con, v[0] == 1]).solve(verbose=False)
+        except Exception as e:
+            return 'building a second Problem from the same conditional dual SAGE constraint raised %s %s' % (type(e).__name__, ' '.join(str(e).split())[:100])
+        if first[0] != second[0] or (np.isfinite(first[1]) and abs(first[1] - second[1]) > 1e-6 * (1 + abs(first[1]))):
+            return 'the same conditional dual SAGE constraint gives %r in a first Problem and %r in a second one' % (first, second)
+        if any(len(np.asarray(u.scalar_variable_ids).ravel()) != int(np.prod(u.shape)) for u in con.variables()):
+            return 'after two compilations a Variable of the dual SAGE constraint reports more indices than components'
+    return None
+
+
 def oracle_resolve(rng):
     """re-solving: whatever options earlier solves of the same Problem were given, a later plain solve gives the value of a fresh copy"""
     import sageopt.coniclifts as cl
@@ -320,7 +361,18 @@ def oracle_generations(rng):
                     'the current generation was built (A is %s) instead of rejected' % (pr.A.shape,))
         except RuntimeError:
             pass
-        b = s_new
+        # the epigraph Variables that a first compilation creates belong to the CURRENT generation: a nonlinear constraint over a
+        # Variable of an earlier generation is a mixed model as well
+        cl.clear_variable_indices()
+        e_old = cl.Variable(shape=(2,), name='ge')
+        cl.clear_variable_indices()
+        try:
+            pr = cl.Problem(cl.MIN, e_old[0], [cl.weighted_sum_exp(np.array([1.0, 2.0]), e_old) <= 4, e_old >= -1])
+            return ('a nonlinear constraint over a Variable of an earlier generation was compiled (A is %s): its epigraph Variables belong to the '
+                    'current generation' % (pr.A.shape,))
+        except RuntimeError:
+            pass
+        b = cl.Variable(shape=(2,), name='gb_current')
         # same generation after the clear: fine
         c2 = cl.Variable(shape=(2,), name='gc')
         st = cl.Problem(cl.MIN, b[0] + c2[1], [b >= 1, c2 >= 2]).solve(verbose=False)
@@ -370,7 +422,7 @@ def run(ctx):
             ctx.problem('oracle', 'property fails on the implementation: ' + why, inputs=meta, failing_input_found=True)
             break
     ctx.suites['subset_histories'] = {'cases': nsub}
-    for name, f in (('resolve', oracle_resolve), ('settings_snapshot', oracle_settings), ('generations', oracle_generations)):
+    for name, f in (('resolve', oracle_resolve), ('separately_then_together', oracle_separately_then_together), ('settings_snapshot', oracle_settings), ('generations', oracle_generations)):
         why = f(ctx.rng)
         ctx.suites[name] = {'cases': 1, 'failure': why}
         ctx.evaluations += 1
@@ -387,7 +439,7 @@ def search(ctx):
         why, meta = subset_history(ctx.rng)
         if why:
             return dict(meta, property_failure=why)
-    for name, f in (('resolve', oracle_resolve), ('settings_snapshot', oracle_settings), ('generations', oracle_generations)):
+    for name, f in (('resolve', oracle_resolve), ('separately_then_together', oracle_separately_then_together), ('settings_snapshot', oracle_settings), ('generations', oracle_generations)):
         why = f(ctx.rng)
         if why:
             return {'suite': name, 'property_failure': why}
